@@ -592,7 +592,9 @@ def nm_outcome(syms, ident):
             main = "undef" if c == "U" else ("%s%s%s" % ("export" if c.isupper() else "local",
                                                       " thread" if ty == "TLS" else "",
                                                       " @" + name[-1] if name != ident else ""))
-    loc = [k for k in syms if re.fullmatch(re.escape(ident) + r'\.\d+', k)]
+    # block-scope statics: gcc spells them `x.N`, clang `<function>.x[.N]`
+    loc = [k for k in syms if re.fullmatch(re.escape(ident) + r'\.\d+', k) or
+           re.fullmatch(r'u_%s_\d+\.%s(\.\d+)?' % (re.escape(ident), re.escape(ident)), k)]
     return main, len(loc), sum(1 for k in loc if syms[k][1] == "TLS")
 
 
@@ -613,12 +615,13 @@ def spec_outcome(sv, ent, used):
 def gcc_quirk(h):
     """Documented places where gcc 12 departs from the text of C11 (clang agrees with the text):
     a block-scope function declaration with `inline` and no `extern` is taken for a nested-function
-    declaration; a block-scope non-inline declaration turns an inline definition into an external
-    one (6.7.4p7 speaks of file-scope declarations only)."""
+    declaration; and when a block-scope declaration of the function stands between file-scope `inline`
+    declarations, gcc decides "inline definition or external definition" differently from 6.7.4p7 (which
+    counts the file-scope declarations only)."""
     if any(f[0] in "BN" and f[1] == "f" and f[2] == "i" for f in h):
         return True
-    filef = [f for f in h if f[0] == "F" and f[1] == "f"]
-    if filef and all(f[2] == "i" for f in filef) and any(f[0] in "BN" and f[1] == "f" for f in h):
+    if any(f[0] == "F" and f[1] == "f" and f[2] in "ijk" for f in h) and \
+            any(f[0] in "BN" and f[1] == "f" for f in h):
         return True
     return False
 
